@@ -4,6 +4,7 @@ package main
 
 import (
 	"bufio"
+	"os"
 	"fmt"
 	"io"
 	"math/big"
@@ -17,9 +18,12 @@ type SolverStats struct {
 	Queries, Sat, Unsat, Unknown int64
 	Nanos                        int64
 	Restarts                     int64
+	Fresh                        int64
 }
 
 var gStats SolverStats
+var solverMode = "incremental"
+var incrBudgetMs int64 = 30
 
 type Solver struct {
 	bin     string
@@ -33,6 +37,9 @@ type Solver struct {
 	timeout time.Duration
 	log     io.Writer
 	lastErr string
+	fresh   *Solver
+	isFresh bool
+	incrMs  int64
 }
 
 func NewSolver(bin string, timeout time.Duration) *Solver {
@@ -67,15 +74,27 @@ func (s *Solver) start() {
 	s.defined = map[int64]bool{}
 	s.declVar = map[string]bool{}
 	s.stack = nil
+	if p := os.Getenv("VF_SOLVERLOG"); p != "" && s.log == nil {
+		f, _ := os.Create(fmt.Sprintf("%s.%d", p, s.cmd.Process.Pid))
+		s.log = f
+	}
 	if strings.Contains(s.bin, "cvc5") {
 		s.send("(set-option :global-declarations true)\n(set-logic ALL)\n")
 	} else {
 		s.send("(set-option :global-declarations true)\n(set-option :produce-models true)\n")
-		s.send(fmt.Sprintf("(set-option :timeout %d)\n", s.timeout.Milliseconds()))
+		to := s.timeout.Milliseconds()
+		if !s.isFresh && to > incrBudgetMs {
+			to = incrBudgetMs
+		}
+		s.send(fmt.Sprintf("(set-option :timeout %d)\n", to))
 	}
 }
 
 func (s *Solver) Close() {
+	if s.fresh != nil {
+		s.fresh.Close()
+		s.fresh = nil
+	}
 	if s.cmd != nil && s.cmd.Process != nil {
 		s.in.Close()
 		s.cmd.Process.Kill()
@@ -86,7 +105,10 @@ func (s *Solver) Close() {
 
 func (s *Solver) restart() {
 	atomic.AddInt64(&gStats.Restarts, 1)
+	f := s.fresh
+	s.fresh = nil
 	s.Close()
+	s.fresh = f
 	s.start()
 }
 
@@ -194,7 +216,7 @@ func (s *Solver) readLine() (string, error) {
 	select {
 	case r := <-ch:
 		return strings.TrimSpace(r.l), r.err
-	case <-time.After(s.timeout + 5*time.Second):
+	case <-time.After(s.hardLimit()):
 		return "", fmt.Errorf("hard timeout")
 	}
 }
@@ -215,17 +237,40 @@ func (s *Solver) CheckModel(pc []*Term, extra *Term, vars []*Term) (string, map[
 		atomic.AddInt64(&gStats.Queries, 1)
 		atomic.AddInt64(&gStats.Nanos, int64(time.Since(t0)))
 	}()
-	s.syncTo(pc)
+	r, m := s.checkIncr(pc, extra, vars)
+	if r != "unknown" {
+		return r, m
+	}
+	// the incremental core gave up within its short budget: decide the query afresh
+	// (non-incremental, so that z3 can use its bit-blasting tactic pipeline)
+	atomic.AddInt64(&gStats.Fresh, 1)
+	if s.fresh == nil {
+		s.fresh = &Solver{bin: s.bin, timeout: s.timeout, isFresh: true}
+		s.fresh.start()
+	}
+	r, m = s.fresh.checkFresh(pc, extra, vars)
+	if r == "unknown" {
+		atomic.AddInt64(&gStats.Unknown, 1)
+	}
+	return r, m
+}
+
+func (s *Solver) checkFresh(pc []*Term, extra *Term, vars []*Term) (string, map[string]*big.Int) {
+	s.defined = map[int64]bool{}
+	s.declVar = map[string]bool{}
 	var sb strings.Builder
+	sb.WriteString("(reset)\n(set-option :produce-models true)\n")
+	fmt.Fprintf(&sb, "(set-option :timeout %d)\n", s.timeout.Milliseconds())
+	for _, t := range pc {
+		s.define(t, &sb)
+		fmt.Fprintf(&sb, "(assert %s)\n", t.ref())
+	}
 	if extra != nil {
 		s.define(extra, &sb)
+		fmt.Fprintf(&sb, "(assert %s)\n", extra.ref())
 	}
 	for _, v := range vars {
 		s.define(v, &sb)
-	}
-	sb.WriteString("(push 1)\n")
-	if extra != nil {
-		fmt.Fprintf(&sb, "(assert %s)\n", extra.ref())
 	}
 	sb.WriteString("(check-sat)\n")
 	s.send(sb.String())
@@ -235,7 +280,6 @@ func (s *Solver) CheckModel(pc []*Term, extra *Term, vars []*Term) (string, map[
 		if err != nil {
 			s.lastErr = err.Error()
 			s.restart()
-			atomic.AddInt64(&gStats.Unknown, 1)
 			return "unknown", nil
 		}
 		if l == "" {
@@ -243,9 +287,7 @@ func (s *Solver) CheckModel(pc []*Term, extra *Term, vars []*Term) (string, map[
 		}
 		if strings.HasPrefix(l, "(error") {
 			s.lastErr = l
-			// drain: after error, result still might come; treat as unknown and restart for safety
 			s.restart()
-			atomic.AddInt64(&gStats.Unknown, 1)
 			return "unknown", nil
 		}
 		if l == "sat" || l == "unsat" || l == "unknown" || l == "timeout" {
@@ -270,7 +312,85 @@ func (s *Solver) CheckModel(pc []*Term, extra *Term, vars []*Term) (string, map[
 		if err != nil {
 			s.lastErr = err.Error()
 			s.restart()
-			atomic.AddInt64(&gStats.Unknown, 1)
+			return "unknown", nil
+		}
+		model = parseModel(txt, vars)
+	}
+	switch res {
+	case "sat":
+		atomic.AddInt64(&gStats.Sat, 1)
+	case "unsat":
+		atomic.AddInt64(&gStats.Unsat, 1)
+	}
+	return res, model
+}
+
+func (s *Solver) checkIncr(pc []*Term, extra *Term, vars []*Term) (string, map[string]*big.Int) {
+	var sb strings.Builder
+	if solverMode == "reset" {
+		s.defined = map[int64]bool{}
+		s.declVar = map[string]bool{}
+		s.stack = nil
+		sb.WriteString("(reset)\n(set-option :produce-models true)\n")
+		fmt.Fprintf(&sb, "(set-option :timeout %d)\n", s.timeout.Milliseconds())
+		for _, t := range pc {
+			s.define(t, &sb)
+			fmt.Fprintf(&sb, "(assert %s)\n", t.ref())
+		}
+	} else {
+		s.syncTo(pc)
+	}
+	if extra != nil {
+		s.define(extra, &sb)
+	}
+	for _, v := range vars {
+		s.define(v, &sb)
+	}
+	sb.WriteString("(push 1)\n")
+	if extra != nil {
+		fmt.Fprintf(&sb, "(assert %s)\n", extra.ref())
+	}
+	sb.WriteString("(check-sat)\n")
+	s.send(sb.String())
+	res := ""
+	for {
+		l, err := s.readLine()
+		if err != nil {
+			s.lastErr = err.Error()
+			s.restart()
+			return "unknown", nil
+		}
+		if l == "" {
+			continue
+		}
+		if strings.HasPrefix(l, "(error") {
+			s.lastErr = l
+			// drain: after error, result still might come; treat as unknown and restart for safety
+			s.restart()
+			return "unknown", nil
+		}
+		if l == "sat" || l == "unsat" || l == "unknown" || l == "timeout" {
+			res = l
+			break
+		}
+	}
+	if res == "timeout" {
+		res = "unknown"
+	}
+	var model map[string]*big.Int
+	if res == "sat" && len(vars) > 0 {
+		var q strings.Builder
+		q.WriteString("(get-value (")
+		for _, v := range vars {
+			q.WriteString(v.ref())
+			q.WriteByte(' ')
+		}
+		q.WriteString("))\n")
+		s.send(q.String())
+		txt, err := s.readSexp()
+		if err != nil {
+			s.lastErr = err.Error()
+			s.restart()
 			return "unknown", nil
 		}
 		model = parseModel(txt, vars)
@@ -281,8 +401,6 @@ func (s *Solver) CheckModel(pc []*Term, extra *Term, vars []*Term) (string, map[
 		atomic.AddInt64(&gStats.Sat, 1)
 	case "unsat":
 		atomic.AddInt64(&gStats.Unsat, 1)
-	default:
-		atomic.AddInt64(&gStats.Unknown, 1)
 	}
 	return res, model
 }
@@ -432,4 +550,11 @@ func sexpValue(e interface{}) *big.Int {
 		}
 	}
 	return nil
+}
+
+func (s *Solver) hardLimit() time.Duration {
+	if !s.isFresh {
+		return time.Duration(incrBudgetMs)*time.Millisecond + 5*time.Second
+	}
+	return s.timeout + 5*time.Second
 }
